@@ -98,8 +98,10 @@ def member_size_guard(prop, repo, fn_name, readers, size_attrs, label="member-si
             return [("within-limit", w) for w in _seen_through(arch, f, test, branch, size_attrs)]
         return [("within-limit", v)] if v is not None and branch is False else []
 
-    mf = MustFacts(gen_cond=gen_cond, need=lambda n: [(("within-limit", arg_of[id(n)].id), f"line {n.lineno}")] if any(n is r for r in reads) else [],
-                   kill_names=lambda fact: [fact[1]])
+    from contracts import guardlib     # a guard applied while a local work list is built holds for the elements the read loop takes from it
+    MF = guardlib.carrying(MustFacts, guardlib.carried_facts(f, gen_cond, MustFacts))
+    mf = MF(gen_cond=gen_cond, need=lambda n: [(("within-limit", arg_of[id(n)].id), f"line {n.lineno}")] if any(n is r for r in reads) else [],
+            kill_names=lambda fact: [fact[1]])
     res = mf.run(f)
     bad = [r for r in res if not r.ok]
     ok = bool(res) and not bad
